@@ -30,14 +30,16 @@ Call(e) == CASE e.op = "update" -> Update(e.p)
              [] e.op = "pickleb" -> PickleB
              [] e.op = "apply" -> Apply(e.i, e.d)
              [] OTHER -> FALSE
-\* the real objects after the call, as projected by the recorder
+\* the real objects after the call, as projected by the recorder; a flavour whose state object is the Tally of the model
+\* (Tr.tally) shows whether it is trained and that number instead of the events
+ShowsModel(m, o) == IF Tr.tally THEN (m # <<>>) = o.trained /\ Tally(m) = o.tally ELSE m = o.model
 Seen(e) == /\ e.res = "ok"
            /\ bld' = e.bld
            /\ \A i \in Inst : /\ inst'[i].built = e.inst[i].built
                               /\ inst'[i].params = e.inst[i].params
-                              /\ inst'[i].model = e.inst[i].model
+                              /\ ShowsModel(inst'[i].model, e.inst[i])
                               /\ inst'[i].built => e.inst[i].stateful = (IF ht' THEN 1 ELSE 0)
-           /\ e.op = "apply" => (out'.p = e.out.p /\ out'.m = e.out.m /\ out'.x = e.out.x)
+           /\ e.op = "apply" => (out'.p = e.out.p /\ out'.x = e.out.x /\ IF Tr.tally THEN Tally(out'.m) = e.out.tally ELSE out'.m = e.out.m)
            /\ e.op = "getstate" => (e.empty => snap'[e.i].model = <<>>) /\ (~ht' => e.empty)
 Step == /\ l <= Len(Tr.ev)
         /\ Call(Tr.ev[l]) /\ Seen(Tr.ev[l])
